@@ -63,6 +63,7 @@ class ItemSpec:
         self.spec = None      # list of lines
         self.loops = {}       # k -> {"binder":..., "inv": [lines]}
         self.hints = []       # (where, n, m, regex, lines)
+        self.inserts = []     # (where, n, m, regex, text)  executable text inserted (reported as rewrite)
         self.sig = None       # for lifted closures / blocks
         self.keep_attrs = False
         self.vac = True       # emit vacuity probe
@@ -117,6 +118,13 @@ def parse_template(path):
                 repl = tail[2:].strip()
                 if repl == "<empty>": repl = ""
                 item.rewrites.append((int(cnt), rx, repl, word))
+            elif word == "insert":
+                where = rest.split(" ", 1)[0]
+                nm, r = rest[len(where):].strip().split(" ", 1)
+                n, m = nm.split("/")
+                rx, tail = split_regex_directive(r)
+                if not tail.startswith("=>"): raise ValueError("%s:%d insert needs =>" % (path, ln))
+                item.inserts.append((where, int(n), int(m), rx, tail[2:].strip()))
             elif word == "spec":
                 item.spec = []; payload = item.spec
             elif word == "loop":
@@ -328,6 +336,14 @@ def build_item(spec, vacuity=False):
                 mm = ms[n - 1]
                 p = b_lo + (mm.start() if where == "before" else mm.end())
             add(p, p, [Seg("\n", "hint")] + payload_segments(lines_, "hint"))
+        for (where, n, mcount, rx, itext) in spec.inserts:
+            ms = list(re.finditer(rx, body))
+            if len(ms) != mcount:
+                raise LostAnchor("%s: insert anchor /%s/ matches %d times, expected %d" % (spec.locator, rx, len(ms), mcount))
+            mm = ms[n - 1]
+            p = b_lo + (mm.start() if where == "before" else mm.end())
+            add(p, p, [Seg(" " + itext + " ", "rewrite")])
+            report["rewrites"].append({"kind": "insert", "at": mm.group(0), "text": itext})
         if vacuity and spec.vac:
             p = toks[body_open][2]
             add(p, p, [Seg(" proof { assert(false); } // VACUITY-PROBE\n", "vacuity")])
@@ -445,7 +461,7 @@ def assemble(unit, vacuity=False, outdir=None):
             if sg.label is not None or sg.props is not None:
                 ent["label"] = sg.label; ent["props"] = sg.props
         out.append(sg.text)
-    path = os.path.join(outdir, unit + (".vac" if vacuity else "") + ".rs")
+    path = os.path.join(outdir, unit + ("_vac" if vacuity else "") + ".rs")
     with open(path, "w") as f: f.write("".join(out))
     return path, linemap, reports, meta
 
